@@ -360,6 +360,37 @@ def c01(res, rng, tier):
                     continue                # documented errors are C03 / C15 material
                 lines.append("enc %d %s - %s" % (p, su, t)); meta.append((v, p, su))
     impl, model = run_enc("C01", lines)
+    # theorem encode_loads (Proofs/PyFacts.v): PyVM.pyload (program c v) = PyVal.pyval_of c v.  Both
+    # specifications are compared with CPython here: the real unpickler on the model's bytes must give
+    # the value the CPython machine of the model computed.
+    from props_enc import LAST_ENV
+    spec = C.modelrun(["pyload " + l.split(" ", 4)[1] + " " + l.split(" ", 4)[2] + " " + l.split(" ", 4)[4] for l in lines], env=LAST_ENV["C01"])
+    in_fragment = 0
+    for i, sp in enumerate(spec):
+        if sp == "NA":
+            continue
+        if not sp.startswith("ok "):
+            res.violation("PyVM.pyload and PyVal.pyval_of disagree inside the model: %s" % sp[:300],
+                          {"kind": "correspondence", "theorem": "PyFacts.encode_loads", "case": lines[i][:800], "model": sp[:800]}, found_input=False)
+            continue
+        cm, bm, _ = enc_obs(model[i])
+        if cm != "ok":
+            res.violation("pyval_of defined but the encoder model fails (%s)" % cm,
+                          {"kind": "correspondence", "theorem": "PyFacts.encode_loads", "case": lines[i][:800]}, found_input=False)
+            continue
+        ok, obj = R.pyload(bytes.fromhex(bm), True)
+        flags = {}
+        try:
+            same = ok and R.equiv(R.parse_go(sp[3:]), obj, True, flags=flags)
+        except (R.Cyclic, RecursionError):
+            continue
+        if flags.get("multi"):
+            continue
+        in_fragment += 1
+        if not same:
+            res.violation("the CPython machine of the model (PyVM) loads %s, CPython itself %s" % (sp[3:200], (repr(obj) if ok else "error: %r" % (obj,))[:200]),
+                          {"kind": "correspondence", "theorem": "PyFacts.encode_loads / PyVM.v", "case": lines[i][:800],
+                           "pickle_hex": bm[:2000], "pyvm": sp[:800], "cpython": repr(obj)[:800]})
     nontriv, nonutf8, nonutf8_ex = 0, 0, None
     nonascii_pid, nonascii_ex = 0, None
     for i, io_ in enumerate(impl):
@@ -420,5 +451,6 @@ def c01(res, rng, tier):
     res.coverage.update({
         "evaluations": len(lines), "distinct_nontrivial": nontriv,
         "rule": "gate matrix + random value trees of every documented Go type (ints of every width around 2^7..2^64, big ints, every float class, strings / Bytes / ByteString / []byte over the adversarial alphabet and lengths 0/1/255/256/257, lists, tuples, maps, Dicts, Calls, Refs, structs, pointers) x protocols 0..5 x StrictUnicode; each output loaded by CPython's pickle._Unpickler (symbolic classes; py2 str kept distinct from unicode) and compared structurally with the documented Python value; non-trivial = outputs loaded and found equal",
-        "programs": len(lines), "disagreements_checked": len(lines), "value_kinds": kinds_hist(vals), "non_utf8_unicode_cases": nonutf8})
+        "programs": len(lines), "disagreements_checked": len(lines), "value_kinds": kinds_hist(vals), "non_utf8_unicode_cases": nonutf8,
+        "cases_inside_theorem_fragment_compared_with_cpython": in_fragment})
     res.samples = [{"case": lines[i][:160], "impl": impl[i][:120]} for i in range(0, len(lines), max(1, len(lines) // 6))]
